@@ -17,6 +17,7 @@ VF_EF(uint32_t, 128, float);
 VF_EF(uint16_t, 1, double);
 #endif
 #if VF_GROUP == 3
+VF_EF_BIG(uint64_t, 1, float);
 VF_EF(uint64_t, 8, float);
 VF_EF(uint32_t, 1, float);
 #endif
